@@ -165,7 +165,8 @@ class gre (packet_base):
         if self.key is not None: flags |= 0x2000
         if self.seq is not None: flags |= 0x1000
         if self.strict_source_route: flags |= 0x800
-        flags |= (self.recursion & 0x700) << 8
+        flags |= (self.recursion & 7) << 8
+        flags |= (self.ver & 7)
 
         r = struct.pack("!HH", flags, self.type)
 
